@@ -140,16 +140,32 @@ DYNAMIC_FEATURES = {"exec", "eval", "setattr", "__import__", "globals", "locals"
 
 
 class Repo:
-    def __init__(self, root: str | os.PathLike = "/repo"):
+    def __init__(self, root: str | os.PathLike = "/repo", normalise: bool = True):
         self.root = Path(root)
         self.modules: dict[str, Module] = {}
         self.functions: dict[str, Func] = {}
         self.classes: dict[str, ast.ClassDef] = {}
         self.class_module: dict[str, Module] = {}
-        self._load()
         self._callgraph = None
+        self._load()
         self.unresolved_calls: list[str] = []
         self.resolved_calls = 0
+        self.inline_report: dict = {}
+        if normalise:
+            from . import inline
+            self.inline_report = inline.apply(self)
+
+    def reindex(self) -> None:
+        """Rebuild the function index after the module trees were rewritten (inline pre-pass)."""
+        self.functions.clear()
+        self.classes.clear()
+        self.class_module.clear()
+        self._callgraph = None
+        for k in ("_rc_memo", "_ca_memo", "_sdm"):
+            self.__dict__.pop(k, None)
+        for m in self.modules.values():
+            m.imports.clear()
+            self._index_module(m)
 
     # ----------------------------------------------------------------- loading
     def _load(self) -> None:
@@ -221,6 +237,10 @@ class Repo:
     def func(self, module: str, qualname: str) -> Func:
         k = f"{module}:{qualname}"
         if k not in self.functions:
+            # a function moved to another module of the package keeps its role
+            same = [f for f in self.functions.values() if f.qualname == qualname]
+            if len(same) == 1:
+                return same[0]
             raise AnalysisError(f"anchor vanished: function {k} not found")
         return self.functions[k]
 
